@@ -18,7 +18,12 @@ def c15(run):
     total = len(cases)
     cap_ = 2500 if quick else 40000
     if total > cap_:
-        cases = rnd.sample(cases, cap_)
+        # (TLC's parallel export order is not stable: sort first so that the seed decides the sample; the short distances
+        # are few and are always kept)
+        cases.sort(key=lambda c: json.dumps(c["in"], sort_keys=True))
+        small = [c for c in cases if c["in"]["d"] <= 2]
+        rest = [c for c in cases if c["in"]["d"] > 2]
+        cases = small + rnd.sample(rest, max(0, cap_ - len(small)))
     # replay-only dimensions (same prediction): the candidate arrives as the soft-failing answer to a stale Syncer.Head();
     # the getter fails with header.ErrNotFound; every request from the failing step on fails
     import copy
